@@ -1267,7 +1267,7 @@ static int sp_dgemm(char tA, char tB, number alpha, void *a, void *b,
 
   if (sp_a && sp_b && sp_c && partial) {
 
-    ccs *A = (tA == 'T' ? a : transpose(a, 0));
+    ccs *A = (tA == 'N' ? transpose(a, 0) : a);
     ccs *B = (tB == 'N' ? b : transpose(b, 0));
     ccs *C = c;
     int j, l;
@@ -1465,6 +1465,8 @@ static int sp_dgemm(char tA, char tB, number alpha, void *a, void *b,
     free(Z->colptr); Z->colptr = colptr_new;
     for (l=0; l<nnz; l++) ((double *)Z->values)[l] = 0;
 
+    /* the loop below uses k as a counter: keep the inner dimension */
+    int kdim = k;
     for (j=0; j<C->ncols; j++) {
 
       if (B->colptr[j+1]-B->colptr[j])
@@ -1476,23 +1478,25 @@ static int sp_dgemm(char tA, char tB, number alpha, void *a, void *b,
         double a_ = alpha.d*((double *)B->values)[k];
         axpy[DOUBLE](&m, &a_, A +
             (tA=='N' ? B->rowind[k]*m : B->rowind[k]),
-            (tA=='N' ? &intOne : &k),
+            (tA=='N' ? &intOne : &kdim),
             (double *)Z->values + Z->colptr[j], &intOne);
       }
 
-      if (beta.d != 0.0) {
-        if (Z->colptr[j+1]-Z->colptr[j] == m) {
+      if (B->colptr[j+1]-B->colptr[j]) {
+        /* column j of Z is full, with row indices 0,...,m-1 */
+        if (beta.d != 0.0) {
           for (l=C->colptr[j]; l<C->colptr[j+1]; l++) {
             ((double *)Z->values)[Z->colptr[j]+C->rowind[l]] +=
                 beta.d*((double *)C->values)[l];
           }
         }
-        else {
-          for (l=C->colptr[j]; l<C->colptr[j+1]; l++) {
-            ((double *)Z->values)[Z->colptr[j]+l-C->colptr[j]] =
-                beta.d*((double *)C->values)[l];
-            Z->rowind[Z->colptr[j]+l-C->colptr[j]] = C->rowind[l];
-          }
+      }
+      else {
+        /* column j of Z has the pattern of column j of C */
+        for (l=C->colptr[j]; l<C->colptr[j+1]; l++) {
+          ((double *)Z->values)[Z->colptr[j]+l-C->colptr[j]] =
+              beta.d*((double *)C->values)[l];
+          Z->rowind[Z->colptr[j]+l-C->colptr[j]] = C->rowind[l];
         }
       }
     }
@@ -1943,12 +1947,15 @@ static int sp_zgemm(char tA, char tB, number alpha, void *a, void *b,
         }
       }
 
+      /* column j of Z is full (row indices 0,...,m-1) if column j of B is 
+         not empty; otherwise it has the pattern of column j of C */
 #ifndef _MSC_VER
-      if (beta.z != 0.0) {
+      if (beta.z != 0.0 || !(B->colptr[j+1]-B->colptr[j])) {
 #else
-      if (creal(beta.z) != 0.0 || cimag(beta.z) != 0.0) {
+      if (creal(beta.z) != 0.0 || cimag(beta.z) != 0.0 ||
+          !(B->colptr[j+1]-B->colptr[j])) {
 #endif
-        if (Z->colptr[j+1]-Z->colptr[j] == m) {
+        if (B->colptr[j+1]-B->colptr[j]) {
           for (l=C->colptr[j]; l<C->colptr[j+1]; l++) {
 #ifndef _MSC_VER
             ((double complex *)Z->values)[Z->colptr[j]+C->rowind[l]] +=
